@@ -216,22 +216,32 @@ func coqBools(bs []bool) string {
 
 type pat struct {
 	Prefix bool   `json:"prefix"`
+	Suffix bool   `json:"suffix,omitempty"`
 	Lit    string `json:"lit"`
 }
 
 func (p *pat) regex() string {
+	if p.Suffix {
+		return regexp.QuoteMeta(p.Lit) + "$"
+	}
 	if p.Prefix {
 		return "^" + regexp.QuoteMeta(p.Lit)
 	}
 	return regexp.QuoteMeta(p.Lit)
 }
 func (p *pat) coq() string {
+	if p.Suffix {
+		return "(PSuffix " + chex([]byte(p.Lit)) + ")"
+	}
 	if p.Prefix {
 		return "(PPrefix " + chex([]byte(p.Lit)) + ")"
 	}
 	return "(PContains " + chex([]byte(p.Lit)) + ")"
 }
 func (p *pat) match(line []byte) bool {
+	if p.Suffix {
+		return bytes.HasSuffix(line, []byte(p.Lit))
+	}
 	if p.Prefix {
 		return bytes.HasPrefix(line, []byte(p.Lit))
 	}
@@ -302,11 +312,19 @@ func genUnits(r *vh.Rng, n int, allowInvalid bool) []unit {
 		k := utf8.EncodeRune(buf, rn)
 		us = append(us, unit(buf[:k]))
 	}
-	// a CR directly before the line end belongs to the line terminator, not to the text
-	for len(us) > 0 && us[len(us)-1][0] == '\r' {
-		us[len(us)-1] = unit{'~'}
+	if n > 0 && r.Chance(0.06) { // the text itself ends with CR (on the wire: CR CR LF)
+		us[len(us)-1] = unit{'\r'}
 	}
 	return us
+}
+
+// lineEOL: the terminator written after a line's text.  A text that ends with CR must be followed by
+// CRLF (a lone LF would make the CR part of the terminator).
+func lineEOL(r *vh.Rng, us []unit, crlfChance float64) string {
+	if len(us) > 0 && us[len(us)-1][0] == '\r' {
+		return "\r\n"
+	}
+	return eol(r.Chance(crlfChance))
 }
 
 func tagUnits(tag string) []unit {
